@@ -80,6 +80,10 @@ FIXED = [
   "TransferTransformer.fit(copy_estimator=True) raised AssertionError for fitted trees: assert_estimator_equal compared tree_ objects with =="),
  ("C03", "ClassifierAfterKMeans:refit:observer-differs:predict", "ClassifierAfterKMeans fits a clone of its estimator",
   "ClassifierAfterKMeans.fit trained the given estimator object in place and predicted with it: with a stateful classifier (warm_start) a refit differed from a fresh clone's fit, and two instances built from the same classifier object overwrote each other (found by the shared-components and refit histories)"),
+ ("C03", "KMeansL1L2:reconfigured:observer-differs:transform", "KMeansL1L2 with norm='L1' records n_features_in_",
+  "the L1 fit never set n_features_in_: after fit(norm='L2') on p columns, set_params(norm='L1') and fit on q != p columns, predict/transform raised (stale attribute of the earlier fit); found by the reconfigured history"),
+ ("C03", "ConstraintKMeans:reconfigured:observer-differs:predict", "ConstraintKMeans(kmeans0=False) records n_features_in_",
+  "same leak for ConstraintKMeans: fit with kmeans0=True then set_params(kmeans0=False) and fit on data of another width left the stale n_features_in_ and predict/transform raised"),
 ]
 log = subprocess.run(["git", "-C", "/repo", "log", "--format=%h\t%s"], stdout=subprocess.PIPE, text=True).stdout.split("\n")
 def find(sub):
